@@ -83,6 +83,9 @@ Definition dec_ev (e : revent) : option ev :=
   | 18, [q], [] => Some (EQFinish q)
   | 19, [q], [] => Some (EQIter q)
   | 20, [q], [] => Some (EQClose q)
+  | 21, id :: sids, [mint; maxt] => Some (EVWritten id mint maxt sids)
+  | 22, [], [T] => Some (EVAwaited T)
+  | 23, ev, [] => Some (EVEvicted ev)
   | _, _, _ => None
   end.
 
